@@ -631,3 +631,125 @@ theorem decodeResponse_sh (abort : Bool) (tb : MsgTables) (cc : Option Int) (enc
             · refine msgCatch_sh (paramsStepF_sh _ _ _ _ _ _) (fun pv s8 => ?_)
               exact after _ s8
 end
+
+/-! ## a stream of arbitrary messages is the concatenation of its messages' decodes -/
+
+/-- the trace of a message decoded on its own, moved to byte `p` of the stream -/
+def shOut (p : Nat) (o : List (Nat × Event)) : List (Nat × Event) := o.map fun ke => (ke.1 + p, shEv p ke.2)
+
+/-- decode the exchanges one by one, each command and each response ON ITS OWN bytes from a fresh state — the response under its
+command's code and the encrypt flag of its command's sessions — and chain the traces; `none` if a message does not complete or is
+not consumed completely -/
+def runMsgs (abort : Bool) (tb : MsgTables) (path : Path) : List (List Byte × List Byte) → Nat → List (Nat × Event) →
+    Option (Nat × List (Nat × Event))
+  | [], pos, out => some (pos, out)
+  | (c, r) :: rest, pos, out =>
+    if c.isEmpty || r.isEmpty then none else
+    match decodeCommand abort tb path (initSt c) with
+    | .ok (cv, tc) =>
+      if !tc.inp.isEmpty then none else
+      match cmdEncrypt tb cv with
+      | .error _ => none
+      | .ok enc =>
+        match decodeResponse abort tb ((objField cv "commandCode").bind vInt) enc path (initSt r) with
+        | .ok (_, tr) =>
+          if !tr.inp.isEmpty then none else
+          runMsgs abort tb path rest (pos + tc.pos + tr.pos) (out ++ shOut pos tc.out ++ shOut (pos + tc.pos) tr.out)
+        | .error _ => none
+    | .error _ => none
+
+def flat (msgs : List (List Byte × List Byte)) : List Byte := (msgs.map fun cr => cr.1 ++ cr.2).flatten
+
+theorem decodeCommand_scs (abort : Bool) (tb : MsgTables) (path : Path) (s : St) (scs : List SC) :
+    decodeCommand abort tb path { s with scs := scs } = decodeCommand abort tb path s := rfl
+
+theorem decodeResponse_scs (abort : Bool) (tb : MsgTables) (cc : Option Int) (enc : Bool) (path : Path) (s : St) (scs : List SC) :
+    decodeResponse abort tb cc enc path { s with scs := scs } = decodeResponse abort tb cc enc path s := rfl
+
+theorem nd_ok {α : Type} {r : R α} {a : α} {t : St} (h : r = .ok (a, t)) : ND r := by
+  intro t' h'; rw [h] at h'; cases h'
+
+/-- **C09 for arbitrary messages, either mode**: whenever every command and every response of the sequence, decoded on its own
+(the response under its command's code and encrypt flag), completes and consumes exactly its bytes — well-formed or not, with or
+without warnings — the stream decode of the concatenation is the chain of those decodes: same events in the same order, stamped
+with the running offset, then the clean stop at the end -/
+theorem stream_is_chain (abort : Bool) (tb : MsgTables) (path : Path) :
+    ∀ (msgs : List (List Byte × List Byte)) (pos : Nat) (out : List (Nat × Event)) (scs : List SC) (pos' : Nat) (out' : List (Nat × Event)),
+    runMsgs abort tb path msgs pos out = some (pos', out') →
+    ∀ fuel, msgs.length < fuel →
+    ∃ scs', decodeStream abort tb path fuel ⟨flat msgs, pos, out, scs⟩ =
+      .ok (.none, ⟨[], pos', out' ++ [(pos', .marshal ⟨path, .named "Command" false, none, "", 0⟩)], scs'⟩) := by
+  intro msgs
+  induction msgs with
+  | nil =>
+    intro pos out scs pos' out' h fuel hf
+    simp only [runMsgs, Option.some.injEq, Prod.mk.injEq] at h
+    obtain ⟨rfl, rfl⟩ := h
+    cases fuel with
+    | zero => simp at hf
+    | succ n => exact ⟨scs, by simp [decodeStream, flat, emitM, emit]⟩
+  | cons cr rest ih =>
+    intro pos out scs pos' out' h fuel hf
+    obtain ⟨c, r⟩ := cr
+    cases fuel with
+    | zero => simp at hf
+    | succ n =>
+      simp only [runMsgs] at h
+      split at h
+      · cases h
+      · rename_i hne
+        simp only [Bool.or_eq_true, not_or, Bool.not_eq_true] at hne
+        obtain ⟨hc, hr⟩ := hne
+        split at h
+        · rename_i cv tc hcmd
+          split at h
+          · cases h
+          · rename_i htc
+            split at h
+            · cases h
+            · rename_i enc henc
+              split at h
+              · rename_i rv tr hrsp
+                split at h
+                · cases h
+                · rename_i htr
+                  have htc' : tc.inp = [] := by simpa using htc
+                  have htr' : tr.inp = [] := by simpa using htr
+                  -- the command inside the stream
+                  have hflat : flat ((c, r) :: rest) = c ++ (r ++ flat rest) := by simp [flat, List.append_assoc]
+                  have hs0 : (⟨flat ((c, r) :: rest), pos, out, scs⟩ : St) =
+                      { shiftSt pos (r ++ flat rest) out (initSt c) with scs := scs } := by
+                    simp [shiftSt, initSt, hflat]
+                  have hC := decodeCommand_sh (d := pos) (y := r ++ flat rest) (pre := out) abort tb path (initSt c) (nd_ok hcmd)
+                  rw [hcmd] at hC
+                  unfold decodeStream
+                  have hne0 : (flat ((c, r) :: rest)).isEmpty = false := by
+                    rw [hflat]; cases c with
+                    | nil => simp at hc
+                    | cons a t => rfl
+                  simp only [hne0, Bool.false_eq_true, if_false]
+                  rw [hs0, decodeCommand_scs, hC]
+                  simp only [shiftR, R.bind_ok, henc]
+                  have hne1 : (shiftSt pos (r ++ flat rest) out tc).inp.isEmpty = false := by
+                    simp only [shiftSt_inp, htc', List.nil_append]
+                    cases r with
+                    | nil => simp at hr
+                    | cons a t => rfl
+                  simp only [hne1, Bool.false_eq_true, if_false]
+                  -- the response
+                  have hs1 : shiftSt pos (r ++ flat rest) out tc =
+                      { shiftSt (tc.pos + pos) (flat rest) (out ++ shOut pos tc.out) (initSt r) with scs := tc.scs.map (shSC pos) } := by
+                    simp [shiftSt, initSt, htc', shOut]
+                  have hR := decodeResponse_sh (d := tc.pos + pos) (y := flat rest) (pre := out ++ shOut pos tc.out) abort tb
+                    ((objField cv "commandCode").bind vInt) enc path (initSt r) (nd_ok hrsp)
+                  rw [hrsp] at hR
+                  rw [hs1, decodeResponse_scs, hR]
+                  simp only [shiftR, R.bind_ok]
+                  -- the rest of the stream
+                  have hs2 : shiftSt (tc.pos + pos) (flat rest) (out ++ shOut pos tc.out) tr =
+                      ⟨flat rest, pos + tc.pos + tr.pos, out ++ shOut pos tc.out ++ shOut (pos + tc.pos) tr.out, tr.scs.map (shSC (tc.pos + pos))⟩ := by
+                    simp [shiftSt, htr', shOut, Nat.add_comm, Nat.add_left_comm]
+                  rw [hs2]
+                  exact ih _ _ _ _ _ h n (by simp at hf; omega)
+              · cases h
+        · cases h
